@@ -76,7 +76,17 @@ def run(tier, seed):
 
 def replay(path, seed):
     from common import read_json
-    rp = read_json(path)["replay"]
+    doc = read_json(path)
+    rp = doc["replay"]
+    if str(rp.get("kind", "")).endswith("-history"):
+        # a call history of a component model: the histories derive from the seed, so the component run is repeated
+        import vmstate
+        v = Verdict(PROP, doc.get("tier", "quick"), doc.get("seed", seed))
+        n = vmstate.report(PROP, v, vmstate.run(doc.get("tier", "quick"), doc.get("seed", seed)))
+        print(json.dumps({"component_model_violations": n}))
+        if n:
+            print(f"VIOLATION property={PROP} replay={path}")
+        return 1 if n else 0
     wd = workdir("c07-replay")
     tp = os.path.join(wd, "one.ndjson")
     harness(["evm-one", "--hex", rp["hex"], "--out", tp])
